@@ -78,7 +78,7 @@ class C02(core.Property):
     backend = ['jit', 'debug', 'pmap', 'pmap'][i % 4]
     return {'kind': rng.randrange(3), 'shared': rng.choice([1, 2, -1, 3]), 'clients': clients,
             'D': rng.randrange(1, min(8, self.ndev) + 1), 'backend': backend,
-            'with_step_result': rng.random() < 0.8}
+            'with_step_result': rng.random() < 0.8, 'committed': rng.random() < 0.5}
 
   def _gen_sched(self, rng):
     nt = rng.randrange(1, 4)
@@ -133,6 +133,9 @@ class C02(core.Property):
     kind, D, backend_name = case['kind'], case['D'], case['backend']
     step = self.mk_step(kind)
     shared = {'s': jnp.float32(case['shared'])}
+    if case.get('committed'):
+      # e.g. the output of an earlier round: committed to one device
+      shared = {'s': jax.device_put(shared['s'], jax.local_devices()[0])}
     mk = lambda: [(cid, [{'x': jnp.asarray(b, dtype=jnp.float32)} for b in batches],
                    {'i': jnp.float32(inp)}) for cid, inp, batches in case['clients']]
     clients = mk()
@@ -217,7 +220,7 @@ class C02(core.Property):
     nbs = sorted({len(c[2]) for c in case['clients']})
     tags = (f'backend={backend_name}', f'kind={kind}', f'nclients={min(len(mclients), 6)}',
             f'mult_of_D={len(mclients) % D == 0}', f'batchcounts={"uniform" if len(nbs) <= 1 else "mixed"}',
-            f'zero_batch_client={any(len(c[2]) == 0 for c in case["clients"])}', f'wsr={wsr}')
+            f'zero_batch_client={any(len(c[2]) == 0 for c in case["clients"])}', f'wsr={wsr}', f'committed_shared={bool(case.get("committed"))}')
     return Outcome(oracle_fail='; '.join(problems[:4]) or None, corr_fail='; '.join(corr[:3]) or None,
                    nontrivial=len(nbs) > 1, tags=tags,
                    detail={'impl': {k: [list(map(str, v[0])), None if v[1] is None else list(map(str, v[1]))]
